@@ -88,14 +88,18 @@ func VerifSetClock(fn func() uint64) {
 // VerifResetProcess makes the package-level state look like that of a freshly started
 // process: the hybrid logical clock forgets everything it handed out and the bucket
 // registry is empty. Handles still open are simply abandoned, as a killed process would.
+//
+// Both package-level objects are replaced, not emptied: a goroutine of an earlier run that is
+// stuck for ever (a deadlock the harness has already reported) may still hold the old registry's
+// lock, and must not be able to block the runs that follow in the same process.
 func VerifResetProcess() {
-	hlc.mutex.Lock()
-	hlc.highestTime = 0
-	hlc.mutex.Unlock()
-	cluster.lock.Lock()
-	cluster.bucketCount = make(map[string]uint)
-	cluster.buckets = make(map[string]*Bucket)
-	cluster.lock.Unlock()
+	clock := hlc.clock
+	hlc = NewHybridLogicalClock(0)
+	hlc.clock = clock
+	cluster = &bucketRegistry{
+		bucketCount: make(map[string]uint),
+		buckets:     make(map[string]*Bucket),
+	}
 }
 
 // VerifRegistryCounts returns a copy of the registry's reference counts.
